@@ -717,6 +717,9 @@ func (pr *ProtoArray) maybeUpdateBestChildAndDescendant(parentIndex NodeIndex, c
 			} else if (!childLeadsToViableHead) && bestChildLeadsToViableHead {
 				// The best child leads to a viable head, but the child doesn't.
 				// *No change*
+			} else if (!childLeadsToViableHead) && !bestChildLeadsToViableHead {
+				// Neither leads to a viable head: the parent must not point at either.
+				changeToNone()
 			} else if child.Weight == bestChild.Weight {
 				// Tie-breaker of equal weights by root. (smaller hash wins)
 				if bytes.Compare(child.Ref.Root[:], bestChild.Ref.Root[:]) > 0 {
